@@ -5,6 +5,13 @@ pub(in super::super) enum DecimalMode<'a> {
 	Regular(&'a Decimal),
 }
 
+/// Converts through the shortest decimal representation of the `f64` (the one that
+/// parses back to the same `f64`), because that is the number the caller means:
+/// the exact binary expansion of `4194304.23_f64` would be `4194304.230000001...`
+pub(super) fn f64_to_decimal(v: f64) -> Option<rust_decimal::Decimal> {
+	v.to_string().parse().ok()
+}
+
 pub(super) fn serialize<'r, 'c, 's, W>(
 	state: &'r mut SerializerState<'c, 's, W>,
 	decimal_mode: DecimalMode<'s>,
